@@ -1,7 +1,7 @@
 # C13 - timed behaviour is independent of the clock origin, including the 32-bit wrap: metamorphic runs.
 # The same scenario script (configuration and op list byte-identical, only `t0=` differs) is executed at the reference origin 5000
-# and at origins 1000 (0 for cold starts), 2^31 +- k, 2^32 - k, 2^32 + 5, 2^33 - k, 10^12 (k = 1, 50, 200, half the scenario
-# length, scenario length + 10) in both scheduler builds.  Oracle (this file, plain Python, independent of the Coq model): every
+# and at origins 1000 (0 for cold starts), 2^31 +- k, 2^32 - k, 2^33 - k (k = 1, 50, 200, half the scenario length, scenario
+# length + 10), 2^32 + 5, 2^32 + 500 / 700 / 900 (wrap inside the prelude of an opened node), 10^12 in both scheduler builds.  Oracle (this file, plain Python, independent of the Coq model): every
 # run must produce, op by op, exactly the events of the reference run (frames with identifier / length / data / driver answer,
 # send results, deliveries, notes), and the same internal state once the absolute times in the dump are made relative to the
 # origin.  Builds are never compared with each other (the 32-bit scheduler fires at now >= next, the 64-bit one at now > next).
@@ -12,7 +12,6 @@
 import random, re, time
 import vlib
 import c13_gen
-from nodesim import parse_result
 
 M32 = 1 << 32
 M64 = 1 << 64
@@ -34,6 +33,7 @@ CHUNK = 4000
 # case lines
 def with_origin(case, t0):
     """the same case with clock origin t0 (everything else byte-identical)"""
+    assert t0 >= 0
     cfg, bar, ops = case.partition('|')
     if re.search(r'(^|\s)t0=\d+', cfg):
         cfg = re.sub(r'(^|\s)t0=\d+', lambda m: '%st0=%d' % (m.group(1), t0), cfg, count=1)
@@ -464,7 +464,8 @@ def judge_sentinel(run, fs, hexe, sent, lines, iout, base, stats, reported):
 
 
 RULE = ('metamorphic: every scenario script (fixed op list and configuration) is run at the reference clock origin 5000 and at origins 1000 (0 for cold starts), 2^31-k, 2^31+k, 2^32-k, '
-        '2^33-k (k = 1, 50, 200, half the scenario length, scenario length + 10; thorough: 4 further random k), 2^32+5 and 10^12, in the 64-bit and the 32-bit scheduler build.  Scenarios: '
+        '2^33-k (k = 1, 50, 200, half the scenario length, scenario length + 10; thorough: 4 further random k), 2^32+5, 2^32+500/700/900 (opened nodes: wrap inside the prelude) and 10^12, in the '
+        '64-bit and the 32-bit scheduler build.  No single step and no distance between two polls reaches 2^32 ms.  Scenarios: '
         'directed timelines polling 1 ms before / at / after every library timeout - cold open (0 / 200 ms) with address claim contention (lower / higher / equal NAME during and after the '
         '250 ms claim, address exhaustion), application StartAddressClaim, ISO requests with a refusing driver and the pending-information retry at 187+src*8 / 187+src*10 ms, RTS/CTS and BAM '
         'sessions in both roles (50 / 100 ms timeouts, hold, completion), heartbeat (10 s offset, 60 s period, changed interval/offset, per device), reassembly-slot eviction at 99 / 100 / '
